@@ -16,6 +16,7 @@ mod envx;
 mod scriptrng;
 mod monitors;
 mod ops;
+mod pytrace;
 mod refmodel;
 mod report;
 mod seqx;
@@ -55,6 +56,8 @@ fn main() {
         "C15" => c15::c15(tier),
         "C16" => agentsx::c16(tier),
         "C17" => c17::c17(tier),
+        "C18" => pytrace::c18(tier),
+        "C19" => pytrace::c19(tier),
         "C20" => c20::c20(tier),
         "C12" => bookprops::c12(tier),
         "C13" => bookprops::c13(tier),
